@@ -103,7 +103,8 @@ def check(run, replay):
                     kind = "corrupted-index"
                 elif e["op"] == "index" and "already exists" in e.get("err", ""):
                     kind = "index-left-behind"
-                viol.append({"property": "C16", "kind": kind, "msg": "seed %d: %s on %s returned %s: %s" % (seed, e["op"], e["d"], e["res"], e.get("err", ""))})
+                churn = "on" if i % 3 == 0 else "off"
+                viol.append({"property": "C16", "kind": kind, "msg": "seed %d (index churn %s): %s on %s returned %s: %s" % (seed, churn, e["op"], e["d"], e["res"], e.get("err", ""))})
         if s.get("shared_txn_lost"):
             viol.append({"property": "C16", "kind": "shared-txn-lost", "msg": "seed %d: %s" % (seed, s["shared_txn_lost"])})
         rp = os.path.join(vlib.FOUND, "C16-history-%d.ndjson" % seed)
